@@ -152,9 +152,10 @@ func main() {
 			log.WithError(err).Errorln("Can't generate backup")
 			os.Exit(1)
 		}
+		// the backup master key is shown to the operator (below) and wiped; the file gets the encrypted keys
 		base64MasterKey := base64.StdEncoding.EncodeToString(backup.Keys)
 		utils.ZeroizeSymmetricKey(backup.Keys)
-		if err := os.WriteFile(file, backup.Keys, filesystem.PrivateFileMode); err != nil {
+		if err := os.WriteFile(file, backup.Data, filesystem.PrivateFileMode); err != nil {
 			log.WithError(err).Errorf("Can't write backup to file %s", file)
 			os.Exit(1)
 		}
